@@ -81,6 +81,20 @@ def extract():
                  "_convert_to_regex", "_to_regex", "key"):
         fn = _fn(rp, name)
         d["CONSTS_" + name.lstrip("_")] = _str_consts(fn)
+    # what each branch of _convert_segment_to_regex returns (the literal branch must go through re.escape)
+    d["RETURNS_convert_segment_to_regex"] = [ast.unparse(n.value) for n in ast.walk(_fn(rp, "_convert_segment_to_regex")) if isinstance(n, ast.Return)]
+    # the emitted literal: regex_literal prints the whole pattern with %r
+    d["REGEX_LITERAL"] = [ast.unparse(n.value) for n in ast.walk(_fn(rp, "regex_literal")) if isinstance(n, ast.Return)]
+    d["SAMPLE_REQUEST"] = [ast.unparse(n) for n in _fn(rp, "sample_request").body if not isinstance(n, ast.Expr)]
+    # uri_sample.sample_from_path_template: the statements under  if "{" in path_template
+    us = _parse("gapic/utils/uri_sample.py")
+    fn = next((n for n in us.body if isinstance(n, ast.FunctionDef) and n.name == "sample_from_path_template"), None)
+    if fn is None:
+        raise ValueError("uri_sample.sample_from_path_template not found")
+    iff = next((n for n in fn.body if isinstance(n, ast.If)), None)
+    if iff is None:
+        raise ValueError("sample_from_path_template: 'if' not found")
+    d["SAMPLE_FROM_PATH_TEMPLATE"] = [ast.unparse(iff.test)] + [ast.unparse(n) for n in iff.body]
     d["RESERVED_NAMES"] = reserved_names()
     return d
 
@@ -94,6 +108,8 @@ def write_gen():
     lines.append(f"Definition POTENTIAL_VERBS : list string := {coq.slist(d['POTENTIAL_VERBS'])}.")
     lines.append(f"Definition FIELD_HEADERS_RETURN : list string := {coq.slist(d['FIELD_HEADERS_RETURN'])}.")
     lines.append(f"Definition DISAMBIGUATED : string := {coq.s(d['DISAMBIGUATED'])}.")
+    for k in ("RETURNS_convert_segment_to_regex", "REGEX_LITERAL", "SAMPLE_REQUEST", "SAMPLE_FROM_PATH_TEMPLATE"):
+        lines.append(f"Definition {k} : list string := {coq.slist(d[k])}.")
     for k in sorted(k for k in d if k.startswith("CONSTS")):
         lines.append(f"Definition {k} : list string := {coq.slist(d[k])}.")
     coq.write_gen("RoutingGen", "\n".join(lines) + "\n")
